@@ -43,6 +43,12 @@ def gen_case(tp, tier):
         'reserved': [tp.choice([0, 0, 1, 3, 8]) for _ in range(3)],
         'initial_node_id': tp.choice([1000, 1000, 2, 5000]),
     }
+    # the client-side option may differ from what the server reports at
+    # login (a server booted elsewhere with another -l): the reply counts
+    # (an id outside the client-side option is refused by the client)
+    cfg['options_max_logins'] = tp.choice(
+        [max_logins] * 3 + [x for x in (1, 4, 32, 64)
+                            if x > cfg['client_id']])
     # keep every per-client partition non-degenerate
     for key, r in (('control_buses', 0), ('audio_buses', 1), ('buffers', 2)):
         total = cfg[key] - (sum(cfg['io']) if key == 'audio_buses' else 0)
@@ -145,7 +151,7 @@ def run_case(case, tape, ctx):
 
     s = srv.Server.default
     o = s.options
-    o.max_logins = cfg['max_logins']
+    o.max_logins = cfg.get('options_max_logins', cfg['max_logins'])
     o.control_buses = cfg['control_buses']
     o.audio_buses = cfg['audio_buses']
     o.buffers = cfg['buffers']
@@ -154,7 +160,7 @@ def run_case(case, tape, ctx):
         cfg['reserved']
     o.initial_node_id = cfg['initial_node_id']
     # what a login reply from the server sets (NRT pins it to 1)
-    s._status_watcher._max_logins = cfg['max_logins']
+    s._status_watcher._max_logins = None
 
     def bounds(cid):
         ml = cfg['max_logins']
@@ -168,7 +174,10 @@ def run_case(case, tape, ctx):
                 (nb * cid + r[2], nb * cid + nb)]
 
     cid = cfg['client_id']
-    s._set_client_id(cid)
+    # the login reply: (client id, max_logins) as the server reports them
+    s._status_watcher._handle_login_done(cid, cfg['max_logins'])
+    if o.max_logins != cfg['max_logins']:
+        stats['login-max-logins-differs-from-option'] = 1
     if s.client_id != cid:
         viol.add('C16-3', 'client-id-not-set',
                  f'client id {cid} of {cfg["max_logins"]} was refused')
